@@ -380,8 +380,11 @@ class LeaderNode(Entity):
 
         # Schedule next anti-entropy round
         next_ae = Event(
-            time=self.now.__class__.from_seconds(
-                self.now.to_seconds() + self._anti_entropy_interval
+            # Instant + seconds (integer nanoseconds); a float round trip could
+            # truncate back to ``now`` and re-arm the round at a frozen clock.
+            time=max(
+                self.now + self._anti_entropy_interval,
+                self.now.__class__(self.now.nanoseconds + 1),
             ),
             event_type="AntiEntropy",
             target=self,
